@@ -258,9 +258,7 @@ func vfH_C02_push_always_acked() {
 	acks0 := len(k.acklist)
 	preOwed := false // an acknowledgement of the same number was already owed before this datagram
 	for i := 0; i < acks0; i++ {
-		if vfConcreteBool(k.acklist[i].sn == f.sn) {
-			preOwed = true
-		}
+		preOwed = vfOr(preOwed, k.acklist[i].sn == f.sn) // one term, no fork
 	}
 	vfReach("pre")
 	vfSetClock(vfU32("now"))
@@ -293,8 +291,8 @@ func vfH_C02_push_always_acked() {
 	}
 	// the converse, without which the sender forgets data the receiver never had: a sequence
 	// number is acknowledged only if the receiver holds it or has already delivered it
-	if (queued || onWire) && !preOwed {
-		vfAssert("acks/acknowledged-only-if-held-or-delivered", vfOr(_itimediff(f.sn, k.rcv_nxt) < 0, k.rcv_buf.Has(f.sn)))
+	if queued || onWire {
+		vfAssert("acks/acknowledged-only-if-held-or-delivered", vfOr(preOwed, vfOr(_itimediff(f.sn, k.rcv_nxt) < 0, k.rcv_buf.Has(f.sn))))
 	}
 }
 
